@@ -175,9 +175,38 @@ def shadow_program(rng):
     return "\n".join(out) + "\n" + "\n".join(main) + "\n"
 
 
+def stateful_template(rng, index):
+    """Hand-written shapes around process-lifetime state an execution could leave behind: number/text
+    formatting state, values computed once per class or per specialisation, counters behind static finals."""
+    fr = rng.choice(["0.125f", "0.375f", "2.625f", "10.0625f"])
+    wh = rng.choice(["2.0f", "7.0f", "100.0f"])
+    k = index % 4
+    if k == 0:
+        return ("function main() -> void {\n    echo(%s);\n    echo(%s);\n    echo(%s + %s);\n    echo(\"v=\" + %s);\n"
+                "    float[] a = {%s, %s};\n    echo(a);\n    echo(3);\n    echo(1.5f * 2);\n}\n" % (fr, wh, fr, fr, fr, fr, wh))
+    if k == 1:
+        return ("static class Ticket {\n    public static int issued = 0;\n    public static function next() -> int {\n"
+                "        issued = issued + 1;\n        return 100 + issued;\n    }\n}\n"
+                "class SBox<T> {\n    public static final int ID = Ticket.next();\n    public static final float SCALE = %s * Ticket.next();\n"
+                "    public T item;\n    public constructor(T v) -> SBox<T> {\n        this.item = v;\n        return this;\n    }\n"
+                "    public function id() -> int {\n        return ID;\n    }\n    public function scale() -> float {\n        return SCALE;\n    }\n}\n"
+                "function main() -> void {\n    SBox<int> b = new SBox<int>(1);\n    echo(\"id=\" + b.id() + \" issued=\" + Ticket.issued);\n"
+                "    SBox<string> c = new SBox<string>(\"s\");\n    echo(c.id());\n    echo(c.scale());\n    echo(Ticket.issued);\n}\n" % fr)
+    if k == 2:
+        return ("class Plain {\n    public static final int FIRST = Plain.bump();\n    public static int calls = 0;\n"
+                "    public constructor() -> Plain = default;\n    public static function bump() -> int {\n        calls = calls + 1;\n"
+                "        return calls * 10;\n    }\n}\nfunction main() -> void {\n    echo(Plain.FIRST);\n    echo(Plain.bump());\n"
+                "    echo(\"t=\" + %s);\n    echo(%s);\n}\n" % (fr, wh))
+    return ("function fmt(float f) -> string {\n    return \"<\" + f + \">\";\n}\nfunction main() -> void {\n    string s = fmt(%s);\n"
+            "    echo(s);\n    echo(fmt(%s));\n    long big = 4294967296L;\n    echo(big);\n    echo(fmt(%s) + fmt(%s));\n    char c = 'x';\n"
+            "    echo(\"c=\" + c);\n    echo(true);\n    echo(1b);\n}\n" % (fr, wh, fr, wh))
+
+
 def classical_source(ctx, index):
     """Deterministic (no simulator draws) programs: every execution must print exactly the same."""
     rng = ctx.rng("cls/%d" % index)
+    if index % 6 == 5:
+        return stateful_template(rng, index // 6)
     k = index % 3
     if k == 0:
         return shadow_program(rng)
